@@ -15,6 +15,13 @@ impl<'a> Clone for Bytes<'a> {
         ensures bytes_view(r) == bytes_view(*self),
     { unimplemented!() }
 }
+impl<'a> Bytes<'a> {
+    // bytes.rs `AsRef<[u8]> for Bytes` (proved against the byte view in unit bytes: Bytes_as_ref)
+    #[verifier::external_body]
+    fn as_ref(&self) -> (r: &[u8])
+        ensures r@ == bytes_view(*self),
+    { unimplemented!() }
+}
 impl<'a> HasKey for Branch<'a> { spec fn key_seq(&self) -> Seq<u8> { bytes_view(self.key) } }
 impl<'a> HasKey for Leaf<'a> {
     spec fn key_seq(&self) -> Seq<u8> {
